@@ -100,6 +100,25 @@ func pubNoKid(k *dsig.PrivateKey) (*dsig.PublicKey, error) {
 	return p, nil
 }
 
+// pubWithKid: the public key of k published under the key id of another key
+func pubWithKid(k *dsig.PrivateKey, kid string) (*dsig.PublicKey, error) {
+	b, err := json.Marshal(k.Public())
+	if err != nil {
+		return nil, err
+	}
+	var m map[string]any
+	if err := json.Unmarshal(b, &m); err != nil {
+		return nil, err
+	}
+	m["kid"] = kid
+	b, _ = json.Marshal(m)
+	p := new(dsig.PublicKey)
+	if err := json.Unmarshal(b, p); err != nil {
+		return nil, err
+	}
+	return p, nil
+}
+
 func freePort() int {
 	l, err := net.Listen("tcp", "127.0.0.1:0")
 	if err != nil {
@@ -127,6 +146,11 @@ func verRun(maxMods int, goblBin, bulkBin string, cliEvery int, out string, work
 	// two keys that never sign anything
 	for _, k := range []string{"k3", "k4"} {
 		pubs[k] = dsig.NewES256Key().Public()
+	}
+	// somebody else's key pair published under the id of k1
+	imp, err := pubWithKid(dsig.NewES256Key(), r.keys["k1"].Public().ID())
+	if err != nil {
+		return err
 	}
 	keyLists := [][]string{{"k2", "k3"}, {"k3", "k4"}, {"k3", "k1"}, {"k1", "k2"}, {"k2", "k1"}, {"k3", "k4", "k2"}, {"k1-nokid", "k3"}, {"k3", "k2-nokid"}, {"k3", "k3"}}
 	var cases []verCase
@@ -167,6 +191,32 @@ func verRun(maxMods int, goblBin, bulkBin string, cliEvery int, out string, work
 					w.Emit(envEvent{Tr: trid, N: n, Op: "Verify", A: "lib", K: []string{key}, Out: lib, St: st, Base: "inv", B: name})
 					cases = append(cases, verCase{trid: trid, n: n, st: st, data: data, key: key, nokid: nokid})
 				}
+			}
+			// an impersonating key (another pair, the signer's key id): on a fresh object, and on an object the
+			// genuine key has just been used on -- what an earlier verification found has no say
+			for _, after := range []bool{false, true} {
+				lib := func() (res string) {
+					defer func() {
+						if p := recover(); p != nil {
+							res = fmt.Sprintf("panic:%v", p)
+						}
+					}()
+					e2 := new(gobl.Envelope)
+					if err := json.Unmarshal(data, e2); err != nil {
+						return "error:parse"
+					}
+					if after {
+						_ = e2.Verify(pubs["k1"])
+						_ = e2.Verify(pubs["k1"], pubs["k2"])
+					}
+					return outcome(e2.Verify(imp))
+				}()
+				n++
+				name := "impersonator"
+				if after {
+					name = "impersonator-after-genuine"
+				}
+				w.Emit(envEvent{Tr: trid, N: n, Op: "Verify", A: "lib", K: []string{"imp"}, Out: lib, St: st, Base: "inv", B: name})
 			}
 			// several keys offered at once: every signature must have been made by one of them
 			for _, kl := range keyLists {
